@@ -55,6 +55,16 @@ CHECKS = {
         technique="Coq proof (total function with explicit exception channel, invariants) + differential correspondence on hostile byte streams",
         design_ref="6 (C10)",
     ),
+    "C05": dict(
+        text="Coq theorems over the encoder model (converter.to_str, descriptor __set__/__get__, action methods generated from their ASTs): a valid value yields exactly "
+        "one PUT with the protocol name and canonical text; read-only/write-only/out-of-domain values raise with nothing transmitted (a structural `rejects` predicate "
+        "proved sufficient for every converter tree); never more than one PUT; relative volume text is Up/Down or Up N dB/Down N dB with N in {1,2,5} for EVERY int, "
+        "float or bool step; reflection over all generated methods. Every attribute x value kind and every method x argument kind is run on real instances (caches "
+        "pre-filled, reads compared before/after) and compared with the model.",
+        note=BASE_NOTE + "Modelled, not verified: descriptor protocol, str()/format() of int/bool/integral float, len(), `in`; Python arguments are a finite taxonomy (pyval); kinds the statement leaves open are reported as such.",
+        technique="Coq proof (structural induction over converter trees) + reflection over generated descriptors/methods + exhaustive differential correspondence",
+        design_ref="6 (C05)",
+    ),
 }
 
 ALL = ["C%02d" % i for i in range(1, 21)]
